@@ -372,8 +372,8 @@ func execPrim(op string, a []string) string {
 				tail[j] = 0xEE
 			}
 			if got, err := rd.Read(buf); err != nil || got != n {
-				outs = append(outs, "err") // a failing read ends the sequence
-				break
+				outs = append(outs, "err") // a refused read hands out nothing and leaves the reader where it was: the sequence goes on
+				continue
 			}
 			outs = append(outs, hx(buf))
 			for j := range buf { // the caller wipes / reuses what it was handed (io.Reader: p must not be retained)
@@ -735,13 +735,22 @@ func genPrimKdf(r *rand.Rand, n int) []string {
 		switch r.Intn(4) {
 		case 0:
 			l := []int{0, 1, 31, 32, 33, 64, 255 * 32, 255*32 + 1, r.Intn(255 * 32)}[r.Intn(9)]
+			if i%13 == 5 { // far beyond the limit, incl. lengths that are small again modulo 2^16
+				l = []int{65536, 65552, 65536 + 8160, 131072 + 32, 1 << 20, 196608 + 16}[(i/13)%6]
+			}
 			out = append(out, fmt.Sprintf("prim.hkdf256 %s %s %s %d", hx(secret), hx(salt), hx(info), l))
 		case 1:
 			l := []int{0, 1, 63, 64, 65, 128, 255 * 64, 255*64 + 1, r.Intn(255 * 64)}[r.Intn(9)]
+			if i%13 == 5 {
+				l = []int{65536, 65600, 65536 + 16320, 131072 + 64, 1 << 20, 196608 + 64}[(i/13)%6]
+			}
 			out = append(out, fmt.Sprintf("prim.hkdf512 %s %s %s %d", hx(secret), hx(salt), hx(info), l))
 		case 2:
 			ks := []int{16, 32, 16, 32, 24, 15, 0}[r.Intn(7)]
 			l := []int{0, 1, 15, 16, 17, 32, 48, 4080, 4081, r.Intn(4081)}[r.Intn(10)]
+			if i%13 == 5 {
+				l = []int{65536, 65568, 65536 + 4080, 131072 + 16, 1 << 20, 196608 + 32}[(i/13)%6]
+			}
 			kk := randBytes(r, ks)
 			if i%17 == 7 {
 				kk = patterned([]int{16, 32}[(i/17)%2], i/17/2)
@@ -775,6 +784,9 @@ func genPrimKdf(r *rand.Rand, n int) []string {
 				if r.Intn(2) == 0 {
 					sizes = append(sizes, strconv.Itoa(r.Intn(3)))
 				}
+			}
+			if i%9 == 4 { // a refused (oversized) read in the middle of a block, then reads that fit
+				sizes = [][]string{{"5", "5000", "20"}, {"5", "4076", "4075"}, {"17", "4080", "15", "4064", "1"}, {"4079", "2", "1", "1"}, {"1", "65536", "16"}}[(i/9)%5]
 			}
 			out = append(out, fmt.Sprintf("prim.hkdfaes.read %s %s %s", hx(randBytes(r, ks)), hx(info), strings.Join(sizes, ",")))
 		}
